@@ -984,11 +984,11 @@ class AdapterRegistry(BaseAdapterRegistry):
 class VerifyingAdapterLookup(AdapterLookupBase, VerifyingBase):
 
     def changed(self, originally_changed):
-        if originally_changed is None:
-            # A generation check failed (or we were asked to start over):
-            # a registry above ours changed, possibly its ``__bases__``,
-            # and nobody tells a verifying registry about that.
-            self._registry._refresh_ro()
+        # Nobody tells a verifying registry when the ``__bases__`` of a
+        # registry above it change; it only notices the generation bump.
+        # The generations snapshot taken below is only meaningful over the
+        # current resolution order, so bring that up to date first.
+        self._registry._refresh_ro()
         super().changed(originally_changed)
 
 
